@@ -150,6 +150,16 @@ def generate(repo):
             continue
         name = "WFI_" + key.replace(".", "_")
         sid, lid = pyinst.inst_ident(dotted, cname, meth, "sing"), pyinst.inst_ident(dotted, cname, meth, "loc")
+        if dotted.endswith("asy.partonic_channel"):
+            # parameters (L, LO delta coefficient) are arbitrary reals: the statement is the one of the module-level kernels
+            txt = (HEADER.replace("From Yad Require Import Expr KTactics.", "From Yad Require Import Expr KTactics.\nFrom YadGen Require Import InstKernels.")
+                   + "(* %s: closure over instance state, args[0] = L = ln(Q2/m2), args[1] = LO delta coefficient of the light class *)\n" % key
+                   + "Theorem wf : forall sp, special_ok sp -> forall a x, 0 < x < 1 ->\n"
+                   + "  is_derive (fun x => eval sp %s x a) x (- eval sp %s x a).\n" % (lid, sid)
+                   + "Proof. intros sp Hsp a x Hx. k_derive_exact sp Hsp %s %s. Qed.\nPrint Assumptions wf.\n" % (lid, sid))
+            files[name + ".v"] = txt
+            metas.append(dict(name=name, kind="exact-instance", sing=key + ":sing", loc=key + ":loc", sites=[key]))
+            continue
         txt = (HEADER.replace("From Yad Require Import Expr KTactics.", "From Coq Require Import Psatz.\nFrom Yad Require Import Expr KTactics.\nFrom YadGen Require Import InstKernels.")
                + "(* %s: closure over instance state, args[0] = lambda = 1/(1 + m2/Q2) *)\n" % key
                + "Theorem wf : forall sp, special_ok sp -> forall l x, 0 < l < 1 -> 0 < x < 1 ->\n"
